@@ -1,0 +1,28 @@
+//go:build verif
+
+package http3
+
+// VerifH3Client is a copy of one entry of RoundTripper.clients taken under r.mutex
+// (verification hook for property C09; compiled only with -tags verif).
+type VerifH3Client struct {
+	Host     string
+	UseCount int64
+	DialDone bool // cl.dialing is closed
+}
+
+// VerifH3Clients returns the entries of the connection cache.
+func VerifH3Clients(r *RoundTripper) []VerifH3Client {
+	r.mutex.Lock()
+	defer r.mutex.Unlock()
+	var out []VerifH3Client
+	for h, cl := range r.clients {
+		c := VerifH3Client{Host: h, UseCount: cl.useCount.Load()}
+		select {
+		case <-cl.dialing:
+			c.DialDone = true
+		default:
+		}
+		out = append(out, c)
+	}
+	return out
+}
